@@ -154,7 +154,7 @@ def own_read(solution_text, classes_by_name):
     return year, forms, vals, fields
 
 
-def expected_fill(forms, vals, fields):
+def expected_fill(forms, vals, fields, limits=None):
     """-> (ordered list of form instances that must be filled, {instance: {pdf field: text}} , expected_error or None)
     expected_error: ('too-long'|'bad-choice'|'absent-field', instance, pdf field, offending text)"""
     store = hb_values.ValueStore(vals)
@@ -185,10 +185,15 @@ def expected_fill(forms, vals, fields):
                 else:
                     s = hb_pdf_fields.PDFField.value(pf, vals[fn], fields[fn])
                     ml = getattr(pf, 'max_length', None)
+                    ch = getattr(pf, '_choices', None)
+                    if limits is not None:
+                        # limits as pinned (shipped forms) or as generated (synthetic forms): the live mapping objects are not trusted
+                        ent = (limits.get(name.split(':')[0]) or {}).get(pf.pdf_field_name) or {}
+                        ml = ent.get('max_length', ml if ent == {} and limits.get('__fallback_live__') else ent.get('max_length'))
+                        ch = ent.get('choices', ch if limits.get('__fallback_live__') else ent.get('choices'))
                     if ml is not None and len(s) > ml:
                         err = err or ('too-long', name, pf.pdf_field_name, s)
                         break
-                    ch = getattr(pf, '_choices', None)
                     if ch is not None and s not in ch:
                         err = err or ('bad-choice', name, pf.pdf_field_name, s)
                         break
@@ -201,10 +206,10 @@ def expected_fill(forms, vals, fields):
     return filing, maps, err
 
 
-def judge_fill(res, forms, vals, fields, flatten, F):
+def judge_fill(res, forms, vals, fields, flatten, F, limits=None):
     """C19 oracles (a) (b) (c) for one fill.  Returns findings."""
     fs = []
-    filing, maps, err = expected_fill(forms, vals, fields)
+    filing, maps, err = expected_fill(forms, vals, fields, limits)
     fake = res.fake
     if filing is None:
         return fs, {'skipped': err}
